@@ -222,7 +222,8 @@ theorem copyListing_rooted (sibs : List Entry) (item : Str) (l : List (PathS × 
 /-- what the walk guarantees about the copy loop of a node it builds: the loop runs over exactly the items of the
     page's `copy_subdir`, and the listing attached to an item is rooted at the item's own directory -/
 def CopyOk (n : Node) : Prop :=
-  n.copies.map Prod.fst = n.copySub ∧ ∀ it l, (it, some l) ∈ n.copies → ([it], true) ∈ l
+  n.copies.map Prod.fst = n.copySub ∧ (∀ it l, (it, some l) ∈ n.copies → ([it], true) ∈ l) ∧
+  ∀ it l, (it, some l) ∈ n.copies → ∀ p ∈ l, p.1.head? = some it
 
 def ResAll (P : Node → Prop) : Res → Prop
   | .page nd => ∀ n ∈ preorder nd, P n
@@ -232,10 +233,35 @@ theorem copyListing_fst (sibs : List Entry) (x : Str) : (copyListing sibs x).1 =
   unfold copyListing
   split <;> rfl
 
+/-- everything in the listing that `copyListing` attaches to an item lies below the item's own directory -/
+theorem copyListing_all_rooted (sibs : List Entry) (item : Str) (l : List (PathS × Bool))
+    (h : copyListing sibs item = (item, some l)) : ∀ p ∈ l, p.1.head? = some item := by
+  unfold copyListing at h
+  split at h
+  · rename_i n cs hf
+    have hn : n = item := by
+      induction sibs with
+      | nil => simp [findEntry] at hf
+      | cons e es ih =>
+        simp only [findEntry] at hf
+        split at hf
+        · rename_i he
+          cases hf
+          simpa [Entry.name] using he
+        · exact ih hf
+    subst hn
+    cases h
+    intro p hp
+    simp only [listAll, List.mem_cons, List.mem_map] at hp
+    rcases hp with rfl | ⟨q, _, rfl⟩
+    · rfl
+    · rfl
+  · cases h
+
 theorem copyOk_built (sibs : List Entry) (cp : List Str) (loc : PathS) (f s t : Str) (h : List (PathS × Str))
     (lk : List Link) (fs : List Str) (subs : List Node) :
     CopyOk (.mk loc f s t h cp (cp.map (copyListing sibs)) lk fs subs) := by
-  constructor
+  refine ⟨?_, ?_, ?_⟩
   · simp only [Node.copies, Node.copySub, List.map_map]
     conv => rhs; rw [← List.map_id cp]
     apply List.map_congr_left
@@ -250,6 +276,15 @@ theorem copyOk_built (sibs : List Entry) (cp : List Str) (loc : PathS) (f s t : 
       exact this.symm
     subst this
     exact copyListing_rooted sibs x l hx
+  · intro it l hm
+    simp only [Node.copies, List.mem_map] at hm
+    obtain ⟨x, _, hx⟩ := hm
+    have : x = it := by
+      have := copyListing_fst sibs x
+      rw [hx] at this
+      exact this.symm
+    subst this
+    exact copyListing_all_rooted sibs x l hx
 
 theorem mem_preorderL (l : List Node) (x : Node) : x ∈ preorder.preorderL l → ∃ s ∈ l, x ∈ preorder s := by
   induction l with
@@ -344,5 +379,87 @@ theorem getPageTree_copyOk (v : Variant) (cs : List Entry) : ResAll CopyOk (getP
         have := entryRes_copyOk v e' m.copySub [([], t)] [] cs
         rw [hr] at this
         exact this x hxs
+
+/-! ## whole directories, exact membership -/
+
+theorem addNew_mem_mono (st : List (PathS × Bool)) (q p : PathS × Bool) (h : p ∈ st) : p ∈ addNew st q := by
+  unfold addNew
+  split
+  · exact h
+  · exact List.mem_append_left _ h
+
+theorem foldFiles_mem_mono (loc : PathS) (fs : List Str) (st : List (PathS × Bool)) (p : PathS × Bool) (h : p ∈ st) :
+    p ∈ fs.foldl (fun s f => addNew s (loc ++ [f], false)) st := by
+  induction fs generalizing st with
+  | nil => exact h
+  | cons f fs ih => exact ih _ (addNew_mem_mono st _ p h)
+
+theorem writeNode_mem_mono (st : List (PathS × Bool)) (n : Node) (p : PathS × Bool) (h : p ∈ st) :
+    p ∈ writeNode st n := by
+  unfold writeNode
+  apply foldFiles_mem_mono
+  apply copyItems_mono
+  apply addNew_mem_mono
+  split
+  · exact addNew_mem_mono st _ p h
+  · exact h
+
+theorem foldl_writeNode_mem_mono (ns : List Node) (st : List (PathS × Bool)) (p : PathS × Bool) (h : p ∈ st) :
+    p ∈ ns.foldl writeNode st := by
+  induction ns generalizing st with
+  | nil => exact h
+  | cons n ns ih => exact ih _ (writeNode_mem_mono st n p h)
+
+theorem addNew_paths (st : List (PathS × Bool)) (q : PathS × Bool) (p : PathS) (h : p ∈ paths (addNew st q)) :
+    p ∈ paths st ∨ p = q.1 := by
+  unfold addNew at h
+  split at h
+  · exact Or.inl h
+  · simp only [paths, List.map_append, List.mem_append, List.map_cons, List.map_nil, List.mem_singleton] at h
+    rcases h with h | h
+    · exact Or.inl h
+    · exact Or.inr h
+
+/-- one page: a directory of its `copy_subdir` whose place is free when the page's `writeout` starts is copied
+    completely by that `writeout` -/
+theorem writeNode_copies_whole (st : List (PathS × Bool)) (n : Node) (it : Str) (listing : List (PathS × Bool))
+    (hm : (it, some listing) ∈ n.copies) (hnd : (n.copies.map Prod.fst).Nodup)
+    (hrooted : ∀ i l, (i, some l) ∈ n.copies → ∀ p ∈ l, p.1.head? = some i)
+    (hfree : n.loc ++ [it] ∉ paths st) (hne : it ≠ n.file) :
+    ∀ p ∈ listing, (n.loc ++ p.1, p.2) ∈ writeNode st n := by
+  intro p hp
+  unfold writeNode
+  apply foldFiles_mem_mono
+  apply copyItems_complete n.loc n.copies _ it listing hm hnd hrooted _ p hp
+  intro hc
+  rcases addNew_paths _ _ _ hc with hc | hc
+  · have hc' : n.loc ++ [it] ∈ paths st := by
+      split at hc
+      · rcases addNew_paths _ _ _ hc with hc | hc
+        · exact hc
+        · simp only at hc
+          have := congrArg List.length hc
+          simp at this
+      · exact hc
+    exact hfree hc'
+  · simp only [Node.path] at hc
+    have := List.append_cancel_left hc
+    simp at this
+    exact hne this
+
+
+/-- all pages: a directory of the `copy_subdir` of page `n` whose place is free after the pages before `n` were
+    written is copied completely, and stays -/
+theorem outputs_copies_whole (top n : Node) (pre post : List Node) (hsplit : preorder top = pre ++ n :: post)
+    (it : Str) (listing : List (PathS × Bool))
+    (hm : (it, some listing) ∈ n.copies) (hnd : (n.copies.map Prod.fst).Nodup)
+    (hrooted : ∀ i l, (i, some l) ∈ n.copies → ∀ p ∈ l, p.1.head? = some i)
+    (hfree : n.loc ++ [it] ∉ paths (pre.foldl writeNode [])) (hne : it ≠ n.file) :
+    ∀ p ∈ listing, (n.loc ++ p.1, p.2) ∈ outputs top := by
+  intro p hp
+  unfold outputs
+  rw [hsplit, List.foldl_append, List.foldl_cons]
+  apply foldl_writeNode_mem_mono
+  exact writeNode_copies_whole _ n it listing hm hnd hrooted hfree hne p hp
 
 end Ford.PT
